@@ -246,6 +246,10 @@ func Nitro(wdt float64, subd int, zeit int, g *GlobalVarsMain, l *NitroSharedVar
 		var NFOSUM, NAOSUM, nmifosum, nmiaosum, CSUM float64
 		if g.EINT[g.NTIL.Index] > 0 {
 			mixtief := math.Round(g.EINT[g.NTIL.Index] / g.DZ.Num)
+			// thin soils: the mixing depth cannot exceed the soil profile
+			if mixtief > float64(g.N) {
+				mixtief = float64(g.N)
+			}
 
 			layerList := make(map[string]interface{})
 			for z := 0; z < int(mixtief); z++ {
